@@ -1596,7 +1596,7 @@ def run_thorough(ctx: Context) -> None:
                 else:
                     ck.unknown("C09.S1", f"{s.func.qualname}: `{norm_stmt(ast.unparse(s.call))[:80]}` resolves to {sorted(names) or 'nothing'}; "
                                "its request is not covered by the C09 rules", s.loc())
-        _require_min(ck, "C09.S1", "request-plumbing call sites", n, 20)
+        _require_min(ck, "C09.S1", "request-plumbing call sites", n, 10)
         # the methods must not escape as values (f = conn.put; f(...))
         for f in ctx.prog.package_functions():
             if isinstance(f.node, ast.Lambda) or not f.module.name.startswith(IP_PKG):
@@ -1632,7 +1632,7 @@ def run_thorough(ctx: Context) -> None:
                     ck.violated("C09.S2", f"{ctx.fkey(s.func)}:foreign-encoder:{r}", f"{s.func.qualname} uses {r} under controller/ip", s.loc())
                 else:
                     ck.unknown("C09.S2", f"{s.func.qualname}: encoder-like call `{norm_stmt(ast.unparse(s.call.func))}` resolves to {r}", s.loc())
-        _require_min(ck, "C09.S2", "JSON encoder uses under controller/ip", n, 3)
+        _require_min(ck, "C09.S2", "JSON encoder uses under controller/ip", n, 2)
 
 
 MANIFEST = {
